@@ -121,9 +121,11 @@ def igmp2 (typ, group, maxresp=100):
 
 def igmp3_report (records):
   b = struct.pack("!BBHHH", 0x22, 0, 0, 0, len(records))
-  for rtype, group, sources in records:
-    b += struct.pack("!BBH4s", rtype, 0, len(sources), F.ip4(group))
-    b += b"".join(F.ip4(s) for s in sources)
+  for rec in records:
+    rtype, group, sources = rec[:3]
+    aux = rec[3] if len(rec) > 3 else b""       # (auxiliary data, in words)
+    b += struct.pack("!BBH4s", rtype, len(aux) // 4, len(sources), F.ip4(group))
+    b += b"".join(F.ip4(s) for s in sources) + aux
   c = inet.csum(b)
   return b[:2] + struct.pack("!H", c) + b[4:]
 
@@ -204,6 +206,13 @@ def build ():
   add("ip_igmp2_report", e(M2, M1, 0x0800, ip(IP1, 0xe0010203, 2, igmp2(0x16, 0xe0010203), ttl=1)))
   add("ip_igmp3_report", e(M2, M1, 0x0800, ip(IP1, 0xe0000016, 2,
       igmp3_report([(4, 0xe0010203, []), (1, 0xe0010204, [IP1, IP2])]), ttl=1)))
+  # group records with auxiliary data (RFC 3376 4.2.10: counted in words)
+  add("ip_igmp3_report_aux", e(M2, M1, 0x0800, ip(IP1, 0xe0000016, 2,
+      igmp3_report([(4, 0xe0010203, [IP2], b"\x01\x02\x03\x04" * 3),
+                    (1, 0xe0010204, [])]), ttl=1)))
+  add("ip_igmp3_report_aux_long", e(M2, M1, 0x0800, ip(IP1, 0xe0000016, 2,
+      igmp3_report([(2, 0xe0010203, [], bytes(range(256))),
+                    (1, 0xe0010204, [IP1], b"\xaa" * (255 * 4))]), ttl=1)))
   add("gre_plain_ip", e(M2, M1, 0x0800, ip(IP1, IP2, 47, gre(0x0800,
       ip(IP1, IP2, 17, F.udp(1, 2, b"in", src=IP1, dst=IP2))))))
   add("gre_key_seq", e(M2, M1, 0x0800, ip(IP1, IP2, 47, gre(0x6558,
@@ -371,6 +380,8 @@ EXPECTED_LAYERS = {
   'ip_igmp2_query': 'ethernet>ipv4>igmp',
   'ip_igmp2_report': 'ethernet>ipv4>igmp',
   'ip_igmp3_report': 'ethernet>ipv4>igmp',
+  'ip_igmp3_report_aux': 'ethernet>ipv4>igmp',
+  'ip_igmp3_report_aux_long': 'ethernet>ipv4>igmp',
   'gre_plain_ip': 'ethernet>ipv4>gre>ipv4>udp',
   'gre_key_seq': 'ethernet>ipv4>gre>ethernet',
   'gre_csum': 'ethernet>ipv4>gre>ipv4>icmp>echo',
